@@ -35,7 +35,7 @@ PROP = {
     "modules": ["GbVerif.Model.Lcd", "GbVerif.Spec.Lcd", "GbVerif.Proofs.Lcd", "GbVerif.Proofs.LcdEnum", "GbVerif.Proofs.LcdSched",
                 "GbVerif.Proofs.Enum", "GbVerif.Proofs.NatBits"],
     "exhaustive": False,
-    "rule": "c14.edge: jump to 8 clocks before each of 17 schedule boundaries (LY 144->145, ->153, ->0, mode 2->3->0 on lines 0, 1, 142, "
+    "rule": "two thirds of all cases run on a picture (field sc=: pattern tiles, forty objects, fourteen of them on one band of lines, LCDC 0x93 / 0x97) - the schedule does not look at the picture; c14.edge: jump to 8 clocks before each of 17 schedule boundaries (LY 144->145, ->153, ->0, mode 2->3->0 on lines 0, 1, 142, "
             "143, LY ->1, ->2, ->143, ->144 (VBlank), second and third frame), then four single ticks, 16 masks x LYC set (quick) / all 256 "
             "(thorough); c14.step: every single 4-clock tick from power-on over 1 frame + 2 lines (quick) / 3 frames (thorough), 16 enable masks x "
             "LYC in {0,1,2,143,144,145,153,154,255} (quick) / all 256 LYC (thorough); c14.run: 1600 (quick) / 160000 (thorough) random "
